@@ -33,6 +33,10 @@ pub struct Case {
     pub machine: Machine,
     pub ram_seed: u64,
     pub subs: Vec<Sub>,
+    /// host I/O extender claiming the ports with port & mask == value: port cycles to a claimed
+    /// port follow the same ULA patterns as any other
+    #[serde(default)]
+    pub ext: Option<(u16, u16)>,
 }
 
 fn fill(seed: u64, bank: usize) -> Vec<u8> {
@@ -50,6 +54,7 @@ fn fill(seed: u64, bank: usize) -> Vec<u8> {
 struct Ctx {
     e: Emu,
     m: RefMachine,
+    ext: Option<(u16, u16)>,
 }
 
 fn mk(c: &Case) -> Ctx {
@@ -62,7 +67,11 @@ fn mk(c: &Case) -> Ctx {
     }
     let mut m = RefMachine::new(mem);
     m.bus.judge_ay = false;
-    Ctx { e, m }
+    if let Some((mask, value)) = c.ext {
+        e.set_io_extender(crate::host::LoggingExtender::new(vec![(mask, value)], 0x5A));
+        m.bus.ext = Some((vec![(mask, value)], 0x5A));
+    }
+    Ctx { e, m, ext: c.ext }
 }
 
 fn is_prefix(b: u8) -> bool {
@@ -79,7 +88,9 @@ fn run_sub(cx: &mut Ctx, machine: Machine, s: &Sub, rec: &mut Rec) -> Result<(),
     // paging
     if machine == Machine::K128 {
         let latch = s.latch & !0x20;
-        if s.by_out {
+        // (an extender that claims 0x7FFD would swallow the paging write: use the hook then)
+        let paging_port_claimed = cx.ext.map(|(m, v)| 0x7FFDu16 & m == v).unwrap_or(false);
+        if s.by_out && !paging_port_claimed {
             // LD BC,0x7FFD ; LD A,latch ; OUT (C),A from bank 2 (never contended, always at 0x8000)
             cx.e.verif_set_paging(0);
             cx.m.bus.mem.latch = 0;
@@ -260,6 +271,9 @@ pub fn check(c: &Case, rec: &mut Rec) -> Result<(), String> {
         rec.class_n(["io:N1-C3", "io:N4", "io:C1-C3", "io:C1x4"][i], *n);
     }
     rec.class(if c.machine == Machine::K48 { "48k" } else { "128k" });
+    if c.ext.is_some() {
+        rec.class("with-io-extender");
+    }
     Ok(())
 }
 
@@ -331,7 +345,16 @@ fn sub(machine: Machine) -> impl Strategy<Value = Sub> {
 
 pub fn case_strategy(n: usize) -> impl Strategy<Value = Case> {
     prop_oneof![Just(Machine::K48), Just(Machine::K128)].prop_flat_map(move |machine| {
-        (any::<u64>(), proptest::collection::vec(sub(machine), 1..=n)).prop_map(move |(ram_seed, subs)| Case { machine, ram_seed, subs })
+        (
+            any::<u64>(),
+            proptest::collection::vec(sub(machine), 1..=n),
+            prop_oneof![
+                3 => Just(None),
+                // every even port / every port with a contended high byte / the ULA's canonical port / a generated class
+                1 => prop_oneof![Just((0x0001u16, 0x0000u16)), Just((0xC000, 0x4000)), Just((0x00FF, 0x00FE)), Just((0x0000, 0x0000)), (any::<u16>(), any::<u16>()).prop_map(|(m, v)| (m, v & m))].prop_map(Some),
+            ],
+        )
+            .prop_map(move |(ram_seed, subs, ext)| Case { machine, ram_seed, subs, ext })
     })
 }
 
